@@ -200,6 +200,10 @@ def run(task: Task, seed=0, tier="quick"):
             _frame_replay(task, res, seed, str(fv))
         except Exception:  # noqa: BLE001
             pass
+        try:
+            _crosscheck(task, res, seed, tier)     # state that outlives a call: the sequence of native samples may show it
+        except Exception:  # noqa: BLE001
+            pass
     except Unsupported as u:
         res["error"] = f"unsupported: {u}"
         res["trace"] = traceback.format_exc()[-1500:]
@@ -444,6 +448,7 @@ def _frame_replay(task, res, seed, what):
         s = task.sample(rnd)
         if s is None:
             s = {}
+        res.setdefault("earlier_samples", []).append(s)
         try:
             task.native_code(s)
         except NotImplementedError:
@@ -492,6 +497,7 @@ def _crosscheck(task, res, seed, tier):
     rnd = random.Random(seed * 7919 + hash(task.name) % 1000)
     n = task.crosscheck_samples * (5 if tier == "thorough" else 1)
     k = 0
+    earlier = [e for e in res.pop("earlier_samples", []) if isinstance(e, dict) and e]   # run by the frame replay before
     for _ in range(n):
         try:
             s = task.sample(rnd)
@@ -505,9 +511,15 @@ def _crosscheck(task, res, seed, tier):
         except Exception as ex:  # noqa: BLE001
             ok, c, sp = False, f"ESCAPE {type(ex).__name__}: {ex}", "?"
         if not ok:
+            # the samples run in sequence in one process: the earlier ones are part of the witness (a failure that
+            # needs them is a dependence on call history; ./check --replay tries the input alone first)
+            wit = dict(s, __earlier_samples__=list(earlier)) if isinstance(s, dict) and earlier else s
             obls.append(obligation(f"{task.name}: native cross-check (bounded)", "refuted", "cpython", 0.0,
-                                   witness=s, detail=f"replayed natively: code -> {c!r}, spec -> {sp!r}", kind="bounded"))
+                                   witness=wit, detail=f"replayed natively: code -> {c!r}, spec -> {sp!r}"
+                                   + (f" (sample {k} of a sequence in one process)" if earlier else ""), kind="bounded"))
             break
+        if isinstance(s, dict):
+            earlier.append(s)
     res["crosscheck"] = k
 
 
